@@ -544,6 +544,9 @@ class Flwdir(object):
             strord = streams.stream_order(
                 self.idxs_ds, self.idxs_seq, self.idxs_us_main, mask=mask, mv=self._mv
             )
+        else:
+            msg = f'Unknown stream order type: {type}, select from ["strahler", "classic"].'
+            raise ValueError(msg)
         return strord.reshape(self.shape)
 
     def upstream_area(self):
